@@ -410,5 +410,5 @@ OBLIGATIONS = [
                bounds="4 elements, 1-4 relations from 8 shapes, optional bundle; label/value from an 8-string catalogue of hostile texts; second entity identifier symbolic (aliasing)",
                assumptions=["Graphviz 2.43 is the acceptance oracle"], functions=["prov.dot.prov_to_dot (all inner functions)", "prov.model.ProvDocument.unified"],
                shims=["pydot + Graphviz crossed in Stage B only"], best_verdict="PATH_COMPLETE",
-               budget_s=(300, 900), per_path_s=(30, 60)),
+               budget_s=(450, 1200), per_path_s=(30, 60)),
 ]
